@@ -188,6 +188,14 @@ def run(repo: Repo, chk: Check):
                 # fold applied directly to the call: replace textually
                 var = norm(crc[0])
             idiom = signed_fold_idiom(expr, var) if var else None
+    if idiom is None and crc:
+        # the conditional form written with statements: if v >= 2**31: return v - 2**32 ... return v
+        from .shared import return_paths
+        ps = [(c_, v_) for c_, v_ in return_paths(ch) if v_ is not None]
+        if len(ps) == 2 and len(ps[0][0]) == 1 and len(ps[1][0]) == 1 and norm(ps[0][0][0][0]) == norm(ps[1][0][0][0]) and ps[0][0][0][1] != ps[1][0][0][1]:
+            t_ = ps[0][0][0][0]
+            body_, else_ = (ps[0][1], ps[1][1]) if ps[0][0][0][1] else (ps[1][1], ps[0][1])
+            idiom = signed_fold_idiom(ast.IfExp(test=t_, body=body_, orelse=else_), norm(crc[0]))
     chk.judge("R08.a", "utils:calc_hash:folded to signed 32 bit", idiom is not None,
               "the CRC is not folded to the signed 32-bit value by a recognised idiom ((v ^ 2**31) - 2**31, v - 2**32 if v >= 2**31 else v, "
               "c_int32, from_bytes(signed=True)) with the right constants: HASH(\"...\") would differ from the game's signed hash",
